@@ -443,7 +443,7 @@ static void dirty_classes(const size_t* sz, int n) {
   }
   for (int i = 0; i < k; i++) mi_free(tmp[i]);
 }
-static const char* zg_names[] = { "mi_rezalloc", "mi_recalloc", "mi_rezalloc_aligned(32)", "mi_recalloc_aligned(32)", "mi_heap_rezalloc", "mi_rezalloc_aligned_at(64,16)" };
+static const char* zg_names[] = { "mi_rezalloc", "mi_recalloc", "mi_rezalloc_aligned(32)", "mi_recalloc_aligned(32)", "mi_heap_rezalloc", "mi_rezalloc_aligned_at(64,16)", "mi_rezalloc_aligned(8)", "mi_heap_recalloc_aligned(2)" };
 static void* zg_call(int v, void* p, size_t n) {
   switch (v) {
     case 0: return mi_rezalloc(p, n);
@@ -452,6 +452,8 @@ static void* zg_call(int v, void* p, size_t n) {
     case 3: return mi_recalloc_aligned(p, 1, n, 32);
     case 4: return mi_heap_rezalloc(mi_heap_get_default(), p, n);
     case 5: return mi_rezalloc_aligned_at(p, n, 64, 16);
+    case 6: return mi_rezalloc_aligned(p, n, 8);                                   /* word alignment: takes the unaligned re-allocation path */
+    case 7: return mi_heap_recalloc_aligned(mi_heap_get_default(), p, 1, n, 2);
   }
   return NULL;
 }
@@ -466,7 +468,7 @@ static void mode_zchain(void) {
   /* chains through size 0 (the "empty dynamic array"): zero-initialised block of a bytes (or NULL) -> re-allocated to 0 -> grown to b:
      every one of the b bytes must read zero */
   { static const size_t za[] = { 0 /* = NULL */, 1, 8, 40, 1000 }, zb[] = { 1, 5, 8, 9, 16, 100, 5000 };
-    for (int ia = 0; ia < 5; ia++) for (int ib = 0; ib < 7; ib++) for (int v = 0; v < 6; v++) {
+    for (int ia = 0; ia < 5; ia++) for (int ib = 0; ib < 7; ib++) for (int v = 0; v < 8; v++) {
       long my = idx++;
       if ((my % g_workers) != g_worker) continue;
       g_case = my;
@@ -497,7 +499,7 @@ static void mode_zchain(void) {
     for (c[0] = 0; c[0] < nl; c[0]++) for (c[1] = c[0] + 1; c[1] < nl; c[1]++)
     for (c[2] = (len >= 3 ? c[1] + 1 : 0); c[2] < (len >= 3 ? nl : 1); c[2]++)
     for (c[3] = (len >= 4 ? c[2] + 1 : 0); c[3] < (len >= 4 ? nl : 1); c[3]++) {
-      for (int v = 0; v < 6; v++) {
+      for (int v = 0; v < 8; v++) {
         if (!g_full && len == 3 && v >= 2 && ((c[0] + c[1] + c[2] + v) % 3) != 0) continue;
         if (g_full && len == 4 && v >= 2 && ((c[0] + c[1] + c[2] + c[3] + v) % 4) != 0) continue;
         /* at most one huge element per chain keeps the run time bounded */
